@@ -9,7 +9,8 @@
 (* by the solved value (analysis.py:430).  Outputs are abstract terms:     *)
 (*   plan()      -> <<"plan", J>>  J = the Jdes the scheduler was run with *)
 (*   compute()   -> <<"spec", J>>                                          *)
-(*   single bin  -> <<"bin", i>>   (own segmentation: no plan involved)    *)
+(*   single bin  -> <<"bin", i>>   (own segmentation: no plan involved;    *)
+(*                  bin3 is one segment shorter than the record)           *)
 (* A fresh analyzer answers Fresh(op).  The property is that every call in *)
 (* every history answers Fresh(op) as well.                                *)
 (***************************************************************************)
@@ -22,7 +23,7 @@ vars == <<force, jdes, planCache, hist, outs>>
 
 J0 == 0                       \* the configured Jdes (target bin count when forcing)
 Solve(t) == IF t = J0 THEN 1 ELSE 2      \* the search maps the original target to J = 1; searching again from 1 would give 2
-Ops == {"plan", "compute", "bin1", "bin2"}
+Ops == {"plan", "compute", "bin1", "bin2", "bin3"}
 
 Init == /\ force \in BOOLEAN /\ jdes = J0 /\ planCache = <<>> /\ hist = <<>> /\ outs = <<>>
 
@@ -39,6 +40,7 @@ Call(op) ==
          [] op = "compute" -> DoPlan /\ outs' = Append(outs, <<"spec", PlanValue>>)
          [] op = "bin1"    -> outs' = Append(outs, <<"bin", 1>>) /\ UNCHANGED <<jdes, planCache>>
          [] op = "bin2"    -> outs' = Append(outs, <<"bin", 2>>) /\ UNCHANGED <<jdes, planCache>>
+         [] op = "bin3"    -> outs' = Append(outs, <<"bin", 3>>) /\ UNCHANGED <<jdes, planCache>>
     /\ UNCHANGED force
 
 Next == \E op \in Ops : Call(op)
@@ -46,7 +48,7 @@ Spec == Init /\ [][Next]_vars
 
 Fresh(op) == CASE op = "plan" -> <<"plan", IF force THEN Solve(J0) ELSE J0>>
                [] op = "compute" -> <<"spec", IF force THEN Solve(J0) ELSE J0>>
-               [] op = "bin1" -> <<"bin", 1>> [] op = "bin2" -> <<"bin", 2>>
+               [] op = "bin1" -> <<"bin", 1>> [] op = "bin2" -> <<"bin", 2>> [] op = "bin3" -> <<"bin", 3>>
 
 HistoryIndependent == \A k \in 1..Len(hist) : outs[k] = Fresh(hist[k])
 CachedPlanUnchanged == planCache # <<>> => planCache[1] = (IF force THEN Solve(J0) ELSE J0)
